@@ -161,7 +161,8 @@ GROUPS = {
         unit='relay_registry.rs', props=['C06'],
         bounds=dict(quick=['5', '1'], thorough=['6', '1']),
         space='(a) every sequential history of at most {0} operations from 16 — connect of connection 1/2/3 of endpoint 1 and of one connection each of peers 8 and 9, '
-              'their closes, packets 1->8, 1->9, 8->1, draining a queue, disconnect requests for one connection or the whole endpoint; queues hold 2 entries — each '
+              'their closes, packets 1->8, 1->9, 8->1, draining a queue, disconnect requests for one connection or the whole endpoint; queues hold 2 entries — and, two steps '
+              'deeper, every history of connects and closes of FOUR connections of one endpoint — each '
               'compared step by step with a reference registry; (b) if {1} = 1: every schedule of 8 two-thread operation pairs (connect | close, connect | send, close | '
               'send, close | disconnect, connect;close | close, close | close of a peer, connect | disconnect) from two initial states, checked for linearizability '
               '(a close is two steps: the connection\'s actor ends, then it unregisters)',
